@@ -197,6 +197,36 @@ pub fn run(tier: Tier, seed: u64) -> i32 {
             cases.push(c);
         }
     }
+    // the same row again and again (no input changes, no input column at all) against a device whose
+    // outputs move on their own: every row reports what the driver returned in the call made for it
+    {
+        let sigs = vec![Sig::inp("A", 1, 0), outs[0].clone(), outs[1].clone()];
+        for (what, header, rowf) in [("constant inputs", vec!["A", "Q", "R"], 3usize), ("no input column", vec!["Q", "R"], 2usize)] {
+            let body: Vec<Stmt> = (0..4).map(|j| Stmt::Row(std::iter::repeat(Entry::Lit(1, Radix::Dec)).take(rowf - 2).chain([exp(j), exp(j + 2)]).collect())).collect();
+            let pr = Program { header: header.iter().map(|s| s.to_string()).collect(), body: vec![Stmt::Repeat(lit(2), match &body[0] { Stmt::Row(es) => es.clone(), _ => vec![] }), body[1].clone(), body[2].clone(), body[3].clone()] };
+            let mut menu = vec![];
+            for a in [V::Num(0), V::Num(1), V::Num(2), V::Z] {
+                for b in [V::Num(5), V::X] {
+                    menu.push(MenuItem::ans(vec![("Q".into(), a), ("R".into(), b)]));
+                }
+            }
+            for ov in [true, false] {
+                cases.push(Case::new(&format!("repeated rows, {what}, device moves on its own ({})", if ov { "Ov" } else { "Fw" }), pr.clone(), sigs.clone(), ov, menu.clone(), menu.clone(), 8));
+            }
+        }
+    }
+    // one-bit outputs: a number other than 0 and 1 is not a 1
+    {
+        let sigs = vec![Sig::inp("A", 1, 0), Sig::out("Q", 1), Sig::out("R", 1)];
+        let pr = Program { header: vec!["A".into(), "Q".into(), "R".into()], body: (0..3).map(|j| Stmt::Row(vec![Entry::Lit(j % 2, Radix::Dec), [Entry::Lit(1, Radix::Dec), Entry::Lit(0, Radix::Dec), Entry::X][j as usize % 3].clone(), [Entry::Z, Entry::Lit(1, Radix::Dec), Entry::Lit(1, Radix::Dec)][j as usize % 3].clone()])).collect() };
+        let mut menu = vec![];
+        for a in [V::Num(0), V::Num(1), V::Num(2), V::Num(32), V::Num(255), V::Num(-1), V::Z, V::X] {
+            for b in [V::Num(1), V::Num(-1), V::Num(0x80)] {
+                menu.push(MenuItem::ans(vec![("Q".into(), a), ("R".into(), b)]));
+            }
+        }
+        cases.push(Case::new("one-bit outputs, device values of every kind", pr, sigs, true, menu.clone(), menu, 6));
+    }
     // wide interfaces: 16, 17, 20 and 40 outputs reported in list order, reversed, rotated, every other one
     for n in [16usize, 17, 20, 40] {
         let mut sigs = vec![Sig::inp("A", 1, 0)];
